@@ -19,6 +19,8 @@ const (
 	// Kinds drawn separately (not through NumTypeKinds):
 	TBasic // predeclared type: X selects uint64, int64, string, uintptr
 	TParam // type parameter (constraint ~uint64) of the generic function enclosing the flow
+	TAnon  // unnamed struct type, spelled out wherever it is used
+	TBytes // one type, two spellings: producers say []byte, consumers say []uint8
 )
 
 // BasicNames are the predeclared types a flow value can have (TypeSpec.X).
